@@ -249,6 +249,10 @@ func c10RecvLoop(c *Ctx, a *clientAnchors) {
 			}
 		}
 	}
+	// nothing else can end the delivery: a further case (a timer, the client's done, a default) takes a datagram that
+	// passed every filter away from the call it belongs to
+	r.Check(len(sel.States) == 2, "C10-K2", key("the delivery waits only for the reader or for the reader's departure"), c.P.ipos(sel), "the delivering select has exactly the send case and the entry's done case",
+		fmt.Sprintf("the delivering select has %d cases: besides handing the message to its call and noticing that the call is gone there is another way out, on which a reply that arrived while the call was waiting is dropped", len(sel.States)))
 	r.Check(hasDone && sel.Blocking, "C10-K1", key("delivery select also waits on the entry's done"), c.P.ipos(sel), "symx",
 		"the delivering select has no receive case on the same entry's done channel: a caller that stopped listening blocks the loop")
 	// present-edge: select only if ok
